@@ -314,23 +314,32 @@ class Facts:
         self.inlined = {}
         self._inline_anchors()
 
-    # anchored functions whose private synchronous helpers are inlined (so that splitting such a
-    # function into helpers does not change what the rules see)
+    # anchored functions whose private helpers are inlined (so that splitting such a function into helpers —
+    # synchronous ones, awaited async ones, closures called directly — does not change what the rules see).
+    # (anchor regex, module regex of inlinable callees, exclusion regex, kinds of inlining)
+    _DRIVER_EXCL = r"::(process_references|load_code|generate_code|check_references)(::\{closure#\d+\})?$|AsyncTempFile|ReferenceProcessor"
+    _MAP_EXCL = (r"::(process_references|load_code|generate_code|check_references)(::\{closure#\d+\})?$|AsyncTempFile::(new|path|file)(::\{closure#\d+\})?$"
+                 r"|AsyncTempFile as std::ops::Drop|ReferenceProcessor<.*>>::(map|reduce)(::\{closure#\d+\})?$")
     INLINE_ANCHORS = [
-        (r"^codegen::generate::(generate_code|check_references)$", r"^codegen::generate::",
-         r"::(process_references|load_code|generate_code|check_references)$|AsyncTempFile|ReferenceProcessor"),
+        (r"^codegen::generate::(generate_code|check_references)$", r"^codegen::generate::", _DRIVER_EXCL, "sync+closure"),
         (r"^parser::rust_parser::rust_log_ref_finder::find$", r"^parser::rust_parser::rust_log_ref_finder::",
-         r"::(find|macro_of_interest)$"),
+         r"::(find|macro_of_interest)$", "sync"),
+        (r"^config::context::Context::(new|read_cached_next_reference_id|cache_next_reference_id)$", r"^config::context::",
+         r"::(new|read_cached_next_reference_id|cache_next_reference_id)$|::default_\w+$", "sync"),
+        (r"^(main|setup_context)$", r"^[a-z_0-9]+$|^ProgArgs::|^<ProgArgs", r"^(main|setup_context)$", "sync"),
+        (r"^codegen::finder::CodeFinder::<'\w+>::(find|new)$", r"^codegen::finder::", r"CodeFinder::<'\w+>::(find|new)$|CodeFile::new$", "sync"),
+        (r"^<codegen::generate::\w+ as codegen::generate::ReferenceProcessor<.*>>::map::\{closure#0\}$", r"^codegen::generate::|^<codegen::generate::", _MAP_EXCL, "sync+async"),
+        (r"^codegen::generate::process_references::\{closure#0\}$", r"^codegen::generate::|^<codegen::generate::", _MAP_EXCL, "sync+async"),
     ]
 
     def _inline_anchors(self):
-        from .inline import inline_calls
-        for (anchor_pat, mod_pat, exclude_pat) in self.INLINE_ANCHORS:
+        from .inline import inline_calls, inline_async
+        for (anchor_pat, mod_pat, exclude_pat, kinds) in self.INLINE_ANCHORS:
             for b in list(self.bodies):
                 if not re.search(anchor_pat, b.id):
                     continue
 
-                def ok(cb, mod_pat=mod_pat, exclude_pat=exclude_pat):
+                def ok_sync(cb, mod_pat=mod_pat, exclude_pat=exclude_pat):
                     if cb.kind not in ("Fn", "AssocFn") or not re.search(mod_pat, cb.id) or re.search(exclude_pat, cb.id):
                         return False
                     if cb.nblocks > 400 or "::tests::" in cb.id:
@@ -339,7 +348,20 @@ class Facts:
                     if any(c.kind.startswith("coroutine") for c in self.children.get(cb.id, [])):
                         return False
                     return True
-                nb = inline_calls(self, b, ok)
+
+                def ok_any(cb, mod_pat=mod_pat, exclude_pat=exclude_pat, kinds=kinds):
+                    if not re.search(mod_pat, cb.id) or re.search(exclude_pat, cb.id) or "::tests::" in cb.id or cb.nblocks > 900:
+                        return False
+                    if cb.kind.startswith("closure"):
+                        return "closure" in kinds
+                    return "async" in kinds
+                nb = b
+                for _ in range(4):
+                    n1 = inline_calls(self, nb, ok_sync)
+                    n2 = inline_async(self, n1, ok_any) if kinds != "sync" else n1
+                    if n2 is nb:
+                        break
+                    nb = n2
                 if nb is not b:
                     self.inlined[b.id] = b
                     self.by_id[b.id] = nb
